@@ -1,26 +1,41 @@
 import BoltonsVerif.Common
 import BoltonsVerif.C04.Model
 import BoltonsVerif.C04.Closed
+import BoltonsVerif.C04.View
+import BoltonsVerif.C04.Names
+import BoltonsVerif.C04.Win
+import BoltonsVerif.C04.Sym
+import BoltonsVerif.Generated.C04_Consts
 /-
 C04 line protocol.  Two kinds of line:
 
   A <umask> <dest> <part> <events...>      acceptance of an OBSERVED trace
-      dest    `-` or `<mode>:<size>`  (old content = <size> bytes of value 7)
+      dest    `-` or `<mode>:<size>`  (old content = <size> bytes of value 7);
+              `L<mode>:<size>`: the destination path is a symbolic link to such a file, `L-`: a link to nothing
+              (the trace is then executed on the link-aware file system `C04.SFS`, the outputs are those of `SFS.abs`)
       part    0/1: a stale part file exists at the start
       events  n | o<excl><samedir>:<mode> | c<mode> | w<size> | f | s | x | xf | R | L | U | T | W<size> | D | ?
               (one token per recorded call; a write writes <size> bytes of value 1)
   S <umask> <dest> <part> <events...>      the same for a SYSCALL-level trace (strace view; `proc=-`)
-    output:  safe=<0|1> exec=<ok|fail@k> proc=<letters> power=<ok|bad@k> final=<letter> part=<0|1>
+    output:  safe=<0|1> exec=<ok|fail@k> proc=<letters> power=<ok|bad@k> final=<letter> part=<0|1> dirs=<letters> held=<letter>
       proc   one letter per prefix of the trace (k = 0..N): what a reader of the destination finds
              after a process death there: a absent, o old content, n new content (= all bytes
              written by the whole trace), b both (old = new), X anything else
       power  whether after every prefix every power-loss outcome reads old (as at the start) or new
+      dirs   one letter per prefix: what a listing of the directory shows of the part file's name:
+             - absent, p present, l present and a hard link to the destination's inode (the link window)
+      held   what a reader that opened the destination BEFORE the save reads through its descriptor at the
+             end: - no destination at the start, o the old content, X anything else
 
   T <flags> <perms> <umask> <dest> <part> <raises> <sizes>      the model's own trace (diagnostic)
       flags four digits 0/1: overwrite, overwrite_part, rm_part_on_exc, text_mode; perms `-` or decimal
     output:  the tokens of `saverTrace`
   T <flags> <perms> <umask> <dest> <part> <raises> <sizes> closed   the same for a body that closes the part file
     output:  the tokens of `saverTraceClosed`
+  T ... nt                  (ninth word `nt`) the tokens of `saverTraceNt` (Windows publication step)
+
+  P <dest base name, UTF-8 hex> <part_file: N = not given, else UTF-8 hex (`-` = empty string)>
+    output:  ok <part file name, UTF-8 hex> | refused         (`C04.partName` with the regenerated suffix)
 -/
 namespace C04.Driver
 open BV C04
@@ -113,11 +128,23 @@ def prefixStates (fs : FS) : List Ev → List FS
     | .ok fs' => fs :: prefixStates fs' t
     | .error _ => [fs]
 
-def accept (umask : Nat) (dest : Option Inode) (part : Bool) (evs : List Ev) (withProc : Bool) : String :=
-  let fs0 := mkFS dest part umask
+/-- the link-aware start state: the destination's entry is a link to the third name, which holds the old file (or nothing) -/
+def mkSFS (dest : Option Inode) (part : Bool) (umask : Nat) : SFS :=
+  match dest, part with
+  | none, false => ⟨[], ⟨some .link, none, none⟩, [], none, umask⟩
+  | some d, false => ⟨[d], ⟨some .link, none, some 0⟩, [], none, umask⟩
+  | none, true => ⟨[stale], ⟨some .link, some 0, none⟩, [], none, umask⟩
+  | some d, true => ⟨[d, stale], ⟨some .link, some 1, some 0⟩, [], none, umask⟩
+
+def sprefixStates (s : SFS) : List Ev → List SFS
+  | [] => [s]
+  | e :: t => match s.step e with
+    | .ok s' => s :: sprefixStates s' t
+    | .error _ => [s]
+
+def acceptStates (fs0 : FS) (sts : List FS) (evs : List Ev) (withProc : Bool) : String :=
   let old := fs0.readDest
   let new := allData evs
-  let sts := prefixStates fs0 evs
   let feasible := sts.length = evs.length + 1
   let proc := if withProc then String.ofList (sts.map fun fs => classify old new fs.destAfterProcCrash) else "-"
   let okLetters : List Char := [classify old new old, 'n', 'b']
@@ -131,13 +158,26 @@ def accept (umask : Nat) (dest : Option Inode) (part : Bool) (evs : List Ev) (wi
   let badAt := (sts.zipIdx).find? fun p => !(powerOk p.1)
   let power := match badAt with | none => "ok" | some p => s!"bad@{p.2}"
   let final := match sts.getLast? with | some fs => fs | none => fs0
-  s!"safe={if SafeTrace evs then 1 else 0} exec={if feasible then "ok" else s!"fail@{sts.length - 1}"} proc={proc} power={power} final={classify old new final.readDest} part={if final.dir.part.isSome then 1 else 0}"
+  let dirs := if withProc then String.ofList (sts.map fun fs => if fs.sameInode && fs.hasPart then 'l' else if fs.hasPart then 'p' else '-') else "-"
+  let held := if !withProc then "-" else match fs0.dir.dest with
+    | none => "-"
+    | some i => if (final.inodes[i]?).map Inode.cache = (fs0.inodes[i]?).map Inode.cache then "o" else "X"
+  s!"safe={if SafeTrace evs then 1 else 0} exec={if feasible then "ok" else s!"fail@{sts.length - 1}"} proc={proc} power={power} final={classify old new final.readDest} part={if final.dir.part.isSome then 1 else 0} dirs={dirs} held={held}"
+
+def accept (umask : Nat) (dest : Option Inode) (part : Bool) (evs : List Ev) (withProc : Bool) : String :=
+  let fs0 := mkFS dest part umask
+  acceptStates fs0 (prefixStates fs0 evs) evs withProc
+
+def acceptSym (umask : Nat) (dest : Option Inode) (part : Bool) (evs : List Ev) (withProc : Bool) : String :=
+  let s0 := mkSFS dest part umask
+  acceptStates s0.abs ((sprefixStates s0 evs).map SFS.abs) evs withProc
 
 def handle (line : String) : String :=
   match words line with
   | "A" :: umask :: dest :: part :: evs =>
-    match umask.toNat?, parseDest? dest, part.toList.map bit?, allOpt (evs.map parseEv?) with
-    | some umask, some dest, [some part], some evs => accept umask dest part evs true
+    let sym := dest.front == 'L'
+    match umask.toNat?, parseDest? (if sym then (dest.drop 1).toString else dest), part.toList.map bit?, allOpt (evs.map parseEv?) with
+    | some umask, some dest, [some part], some evs => if sym then acceptSym umask dest part evs true else accept umask dest part evs true
     | _, _, _, _ => "bad-op"
   | "S" :: umask :: dest :: part :: evs =>
     match umask.toNat?, parseDest? dest, part.toList.map bit?, allOpt (evs.map parseEv?) with
@@ -159,6 +199,21 @@ def handle (line : String) : String :=
       let t := saverTraceClosed cfg (mkFS dest part umask) (sizes.map fun n => (List.replicate n 1, 0))
       " ".intercalate (t.map showEv)
     | _, _, _, _, _, _ => "bad-op"
+  | ["T", flags, perms, umask, dest, part, raises, sizes, "nt"] =>
+    match flags.toList.map bit?, (if perms = "-" then some none else perms.toNat?.map some),
+          umask.toNat?, parseDest? dest, part.toList.map bit?, raises.toList.map bit?, natList? sizes with
+    | [some ow, some owp, some rm, some txt], some perms, some umask, some dest, [some part], [some raises], some sizes =>
+      let cfg : Cfg := ⟨ow, owp, rm, txt, perms⟩
+      let t := saverTraceNt cfg (mkFS dest part umask) ⟨sizes.map fun n => (List.replicate n 1, 0), raises⟩
+      " ".intercalate (t.map showEv)
+    | _, _, _, _, _, _, _ => "bad-op"
+  | ["P", d, pf] =>
+    match hexToString? d, (if pf = "N" then some none else (hexToString? pf).map some) with
+    | some d, some pf =>
+      match partName Gen.partSuffix d.toList (pf.map String.toList) with
+      | some n => s!"ok {stringToHex (String.ofList n)}"
+      | none => "refused"
+    | _, _ => "bad-op"
   | _ => "bad-op"
 
 end C04.Driver
